@@ -200,7 +200,48 @@ def planted_line_filter_bug(sl: int, exc: List[int]) -> bool:
     return got == exp
 
 
+from harness.c13w import *  # noqa: F401,F403  (whole-transformer family: whole_<codemod> obligations)
+from harness import c13w
+
+
+def whole_transformers(tier_name):
+    """E3-style: the complete real transformer of each detector-less codemod in c13w.SOURCES runs natively with a
+    symbolic line number n as the only exclude (resp. include) line; z3 enumerates the cells of the partition of Z
+    induced by the comparisons the code makes against n, one native run per cell."""
+    import os
+
+    from vlib.core import ROOT
+
+    recs = []
+    for name in c13w.SOURCES:
+        for include in (False, True):
+            rec = {"name": "whole:%s:%s" % (name, "include" if include else "exclude"), "engine": "E3-cells+z3"}
+            try:
+                done, atoms, runs, queries = c13w.explore(name, include)
+            except c13w.Leak as e:
+                rec.update(verdict="inconclusive", detail="the transformer uses the line number other than by comparison: %s" % e, evaluations=0, distinct_nontrivial=0)
+                recs.append(rec)
+                continue
+            bad = {n: v for n, v in done.items() if v is not None}
+            rec.update(evaluations=runs, distinct_nontrivial=len(done), z3_checks=queries, sample={"cells": sorted(done), "comparisons_made_by_the_code": sorted(atoms)})
+            if bad:
+                n = sorted(bad)[0]
+                d = os.path.join(ROOT, "replays", "C13")
+                os.makedirs(d, exist_ok=True)
+                path = os.path.join(d, "whole_%s_%s.py" % (name.replace("-", "_"), "include" if include else "exclude"))
+                with open(path, "w") as f:
+                    f.write("import sys\nsys.path.insert(0, %r)\nfrom harness import c13w\nc13w.warmup()\nfc_lines = [%d]\n"
+                            "out, lines, exc = None, None, None\ntry:\n    out, lines = c13w._run(%r, %s, %s)\nexcept Exception as e:\n    exc = '%%s: %%s' %% (type(e).__name__, e)\n"
+                            "v = c13w._verdict(%r, %d, %r, out, lines, exc)\nprint(v)\nsys.exit(1 if v else 0)\n" % (ROOT, n, name, "[]" if include else "fc_lines", "fc_lines" if include else "[]", name, n, include))
+                rec.update(verdict="violation", replay=path, detail="%s with %s line %d: %s" % (name, "--path-include" if include else "--path-exclude", n, bad[n]))
+            else:
+                rec["verdict"] = "discharged"
+            recs.append(rec)
+    return recs
+
+
 def warmup():
+    c13w.warmup()
     line_patterns_exclude(0, 3, 1, 4, True)
     line_patterns_include(2, 5)
     file_line_patterns_direct(3, 0)
@@ -228,17 +269,19 @@ SPEC = {
         "UtilsMixin.filter_by_path_includes_or_excludes / node_is_selected, base_visitor.match_line",
         "core_codemods.remove_unused_imports.RemoveUnusedImports.filter_by_path_includes_or_excludes / match_line",
         "LibcstResultTransformer.report_change / add_change / add_change_from_position / report_change_for_line",
+        "whole-transformer family: the complete real transformers of 16 detector-less codemods with a symbolic excluded / included line number (native runs, one per z3-enumerated cell of the comparisons the code makes against it); invert-boolean-check additionally under CrossHair in the thorough tier",
     ],
     "bounds": {
         "quick": "node lines and include/exclude lines: unbounded symbolic ints; pattern line numbers: selector into {1, 7, 120}; path part: selector into 7 spellings (relative, 3 globs, absolute, other file, other directory); <= 2 line patterns per list in _process_file; include / exclude lists of <= 3 symbolic lines",
-        "thorough": "same",
+        "thorough": "same kernels; whole-transformer family extended from 4 to 16 codemods",
     },
     "assumptions": [
         "the path part of a pattern is one of 7 concrete spellings (fnmatch on a symbolic string is out of CrossHair's reach; glob semantics over all strings are decided by E3 under C05)",
         "node positions come from a table (libcst PositionProvider trusted)",
     ],
     "stubs": ["transformer pipeline (records the FileContext it receives)", "node_position", "codetf.Change in libcst_transformer (pure-Python twin: pydantic-core rejects symbolic ints)", "logger"],
-    "outside": ["which of the ~100 transformers actually consult the filter (needs whole transformers)", "multi-line constructs"],
+    "outside": ["the ~85 transformers not in the whole-transformer family (semgrep-detected ones need the absent detector)", "multi-line constructs", "edits that add or remove lines elsewhere in the file"],
+    "drivers": [whole_transformers],
     "xh": [
         Xh("line_patterns_exclude", 200, 400),
         Xh("line_patterns_include", 120, 300),
@@ -247,5 +290,6 @@ SPEC = {
         Xh("selection_respects_lines", 150, 300),
         Xh("change_line_number", 100, 200),
         Xh("planted_line_filter_bug", 60, 120, twin=False, expect="refuted"),
-    ],
+    ]
+    + [Xh(fn, 400, 600, tiers=("thorough",)) for fn in c13w.WHOLE],
 }
